@@ -60,6 +60,7 @@ package registry
 //@   ensures{C17,C19} error-means-nil: err != nil ==> r == nil
 //@   ensures{C02} types-kept: err == nil ==> r.srcPkgTypes != nil
 //@   ensures{C10} fresh-registry: err == nil ==> r != nil && fresh(r) && r.imports != nil && fresh(r.imports) && forall(string(k), !dom(r.imports, k))
+//@   ensures{C11} wf: err == nil ==> wfK(r)
 
 //@ func registry.Registry.LookupInterface -> iface, tparams, err
 //@   props C02 C09
@@ -73,10 +74,42 @@ package registry
 //@   ensures{C19} result-or-error: err == nil ==> iface != nil
 //@ define isIface(t) = isType(t.Underlying(), *types.Interface)
 
+//@ -- qualifier a new entry for pkg would get before any conflict resolution
+//@ define newQual(r, pkg) = ite(r.aliases[canon(pkg)] != "", r.aliases[canon(pkg)], pkg.Name())
+
 //@ func registry.Registry.AddImport -> imprt
-//@   trusted contract assumed here; its verification is tracked under C11 (registry invariants)
-//@   modifies H:registry.Package#, M:string:*registry.Package#
-//@   ensures imprt != nil ==> imprt.pkg != nil
+//@   props C10 C11
+//@   safety C19
+//@   modifies H:registry.Package#, M:string:*registry.Package#, A:string#
+//@   requires r != nil && pkg != nil && r.imports != nil && wfK(r)
+//@   ensures{C10} own-package-dropped: canon(pkg) == r.moqPkgPath ==> imprt == nil
+//@   ensures{C11} known-package-once: canon(pkg) != r.moqPkgPath && old(dom(r.imports, canon(pkg))) ==> imprt == old(r.imports[canon(pkg)])
+//@   ensures{C10,C11} nothing-changes-when-known-or-own: (canon(pkg) == r.moqPkgPath || old(dom(r.imports, canon(pkg)))) ==> forall(string(k), dom(r.imports, k) == old(dom(r.imports, k)) && r.imports[k] == old(r.imports[k])) && forall((*Package)(p), old(allocated(p)) ==> p.Alias == old(p.Alias))
+//@   ensures{C11} new-package-registered: canon(pkg) != r.moqPkgPath && !old(dom(r.imports, canon(pkg))) ==> imprt != nil && fresh(imprt) && imprt.pkg == pkg && dom(r.imports, canon(pkg)) && r.imports[canon(pkg)] == imprt
+//@   ensures{C11} other-keys-kept: forall(string(k), k != canon(pkg) ==> dom(r.imports, k) == old(dom(r.imports, k)) && r.imports[k] == old(r.imports[k]))
+//@   ensures{C11} packages-kept: forall((*Package)(p), old(allocated(p)) ==> p.pkg == old(p.pkg))
+//@   ensures{C10,C11} wf: wfK(r)
+//@   ensures result-has-pkg: imprt != nil ==> imprt.pkg != nil
+//@   ensures{C11} alias-kept-without-conflict: canon(pkg) != r.moqPkgPath && !old(dom(r.imports, canon(pkg))) && forall(string(k), old(dom(r.imports, k)) ==> old(qual(r.imports[k])) != newQual(r, pkg)) ==> imprt.Alias == r.aliases[canon(pkg)] && forall((*Package)(p), old(allocated(p)) ==> p.Alias == old(p.Alias))
+
+//@ func registry.Registry.resolveImportConflict
+//@   props C11
+//@   safety C19
+//@   modifies H:registry.Package#.Alias, A:string#
+//@   requires a != nil && b != nil && a.pkg != nil && b.pkg != nil && lvl >= 0
+//@   requires forall(string(k), dom(r.imports, k) ==> r.imports[k] != nil && r.imports[k].pkg != nil)
+//@   loop 1 unroll 3
+//@   -- no termination measure exists on the pinned tree: two paths that sanitise to the same
+//@   -- string recurse for ever (known finding KF-C19-resolve-import-conflict)
+
+//@ func registry.Package.uniqueName -> name
+//@   props C11
+//@   safety C19
+//@   modifies A:string#
+//@   requires lvl >= 0 && p.pkg != nil
+//@   loop 1 invariant idx: i >= 0
+//@   loop 1 decreases min2(len(pp), lvl + 1) - i
+//@ define min2(a, b) = ite(a < b, a, b)
 
 //@ func registry.Registry.Imports$1
 //@   props C11 C14
@@ -100,13 +133,15 @@ package registry
 
 //@ func registry.MethodScope.AddVar -> v
 //@   trusted contract assumed here; its verification is tracked under C12
-//@   modifies H:registry.Package#, M:string:*registry.Package#, H:registry.Var#, H:registry.MethodScope#, A:*registry.Var#, M:string:bool#
+//@   modifies H:registry.Package#, M:string:*registry.Package#, H:registry.Var#, H:registry.MethodScope#.vars, A:*registry.Var#, M:string:bool#
+//@   requires m != nil && m.registry != nil && vr != nil && wfK(m.registry)
+//@   ensures wfK(m.registry)
 //@   ensures v != nil && fresh(v) && v.vr == vr
 //@   ensures forall((*Var)(p), old(allocated(p)) ==> p.vr == old(p.vr))
 
 //@ -- registry invariant (K): every key of the import map is the canonical path of a non-nil
 //@ -- entry with a package object, and is never the destination package itself
-//@ define wfK(r) = forall(string(k), dom(r.imports, k) ==> r.imports[k] != nil && r.imports[k].pkg != nil && canon(r.imports[k].pkg) == k && k != r.moqPkgPath)
+//@ define wfK(r) = r.imports != nil && forall(string(k), dom(r.imports, k) ==> r.imports[k] != nil && r.imports[k].pkg != nil && canon(r.imports[k].pkg) == k && k != r.moqPkgPath)
 
 //@ func registry.MethodScope.searchVar -> v, ok
 //@   props C12
